@@ -36,7 +36,7 @@ def cases(draw):
     n = draw(st.integers(k, 5))
     seg = draw(st.sampled_from([k * 8, 64, 100, 4096]))
     nseg = draw(st.integers(1, 4))
-    size = max(56, seg * nseg - draw(st.integers(0, min(seg, 50) - 1))) if seg < 4096 else draw(st.integers(56, 400))
+    size = max(56, seg * nseg - draw(st.integers(0, min(seg, 50) - 1))) if seg < 4096 else draw(st.integers(56, 400) | st.integers(2000, 9000))
     servers = n + draw(st.integers(0, 2))
     damage = draw(st.lists(st.tuples(st.integers(0, 8), st.integers(0, 5), st.sampled_from(DAMAGE), st.integers(0, 5000)).map(list), max_size=n))
     return {"k": k, "n": n, "seg": seg, "size": size, "servers": servers, "place": [[i, i] for i in range(n)], "damage": damage, "faults": [],
